@@ -615,7 +615,7 @@ theorem atomFacts (n : Node) (hw : WritableAtom n) (hid : (natRepr (n.id + 1)).l
       · exact optTok_last _ t h
       · exact optTok_last _ t h
   obtain ⟨line, z, h1, h2, _, h4⟩ := atomLine_roundtrip n s hs hel
-    (fun t ht => ⟨(hw.coords t ht).1, (hw.coords t ht).2.1⟩) hid hw.chg hw.rad hw.mass
+    (fun t ht => ⟨(hw.coords t ht).1, (hw.coords t ht).2.1⟩) hw.chg hw.rad hw.mass
   have hl : line = joinSp (atomToks n) := by
     rw [hline] at h1
     exact (Except.ok.inj h1).symm
